@@ -4,8 +4,8 @@
 (* x every flag combination of the chosen family.  Days straddle a week          *)
 (* (Sun 2019-12-29 | Mon 12-30) and a month/quarter/year (12-30 | 2020-01-01)    *)
 (* boundary.                                                                     *)
-EXTENDS Ledger, TLC
-CONSTANTS MaxLen, Family
+EXTENDS Ledger, TLC, Json
+CONSTANTS MaxLen, Family, Emit
 VARIABLES journal, flags
 
 D1 == 18259  D2 == 18260  D3 == 18262
@@ -124,6 +124,9 @@ OrderIrrelevantP(case, fin) == Family = "order" =>
    \A p \in Permutations(1..Len(journal)) :                 \* the opens interleaved at the end instead of the start
       LET fin2 == Run([case EXCEPT !.journal = Permute(journal, p) \o Opens])
       IN fin2.rep = fin.rep /\ Failed(fin2) = Failed(fin) /\ fin2.lc.err.k = fin.lc.err.k
+
+\* generation: every (journal, flags) of the scope, for replay through the real CLI
+EmitCase == (Emit /\ HasTrx) => PrintT("CASE " \o ToJson([journal |-> journal, flags |-> flags, v |-> ValuationOf]))
 
 \* one evaluation of Run per state
 AllInv ==
